@@ -1,459 +1,20 @@
-//! Seam between `cdshealpix`'s two lazily initialised tables and the engine-B simulator.
-//!
-//! * [`Slots<T>`] replaces `[Option<T>; 30]`: `Index` / `IndexMut` are the interception points,
-//!   so every existing `TABLE[depth as usize]` expression compiles unchanged and is seen by the
-//!   simulator (scheduling point + happens-before monitor).
-//! * [`Once`] replaces `std::sync::Once`: shuttle's model does the blocking / winner election;
-//!   this wrapper adds the release/acquire bookkeeping of the monitor's own vector clocks.
-//! * [`constructing`] counts constructions and is the stall point inside the initialiser.
-//!
-//! All simulated threads are coroutines on ONE OS thread, so the monitor is a plain
-//! `thread_local!` and there is no real concurrency anywhere in here.  Never use this crate
-//! with real threads.
-//!
-//! Vector-clock discipline (own clocks, not shuttle's, so the rules are exactly these):
-//!   acquire(x): C_t := max(C_t, x);   release: snapshot C_t, then C_t[t] += 1.
-//! An access by `u` is ordered after an access stamped (t, e) iff t == u or e <= C_u[t].
+//! Seam between `cdshealpix`'s two lazily initialised tables and the verification engines.
+//! Two mutually exclusive flavours, selected by a cargo feature of this crate (forwarded by the
+//! shadow manifest of `cdshealpix`):
+//!   * `sim`   -- engine B: shuttle coroutines, instrumented `Slots`/`Once`, happens-before monitor;
+//!   * `count` -- engine A': real `std` primitives and plain arrays, construction counters only.
 
-use std::cell::RefCell;
-use std::ops::{Index, IndexMut};
+#[cfg(all(feature = "sim", feature = "count"))]
+compile_error!("verif_rt: features `sim` and `count` are mutually exclusive");
 
-pub const MAX_TASKS: usize = 8;
-pub const N_SLOTS: usize = 30;
-pub const TABLE_LAYERS: u8 = 0;
-pub const TABLE_CSTS: u8 = 1;
-pub const TABLE_ONCE: u8 = 254;
+#[cfg(feature = "sim")]
+#[path = "sim.rs"]
+mod sim_impl;
+#[cfg(feature = "sim")]
+pub use sim_impl::*;
 
-pub type Clock = [u32; MAX_TASKS];
-
-#[derive(Clone, Copy, Debug, PartialEq, Eq)]
-#[repr(u8)]
-pub enum Kind {
-    Read = 0,
-    Write = 1,
-    OnceEnter = 2,
-    OncePost = 3,
-    Construct = 4,
-}
-
-impl Kind {
-    pub fn name(self) -> &'static str {
-        match self {
-            Kind::Read => "read",
-            Kind::Write => "write",
-            Kind::OnceEnter => "once-enter",
-            Kind::OncePost => "once-post",
-            Kind::Construct => "construct",
-        }
-    }
-}
-
-#[derive(Clone, Copy, Debug)]
-pub struct Event {
-    pub task: u8,
-    pub table: u8,
-    pub slot: u8,
-    pub kind: Kind,
-    /// for reads: whether the slot held `Some` when read (filled by `Slots::index`)
-    pub saw_some: bool,
-}
-
-#[derive(Clone, Debug)]
-pub struct Race {
-    pub table: u8,
-    pub slot: u8,
-    pub first_task: u8,
-    pub first_kind: Kind,
-    pub first_epoch: u32,
-    pub second_task: u8,
-    pub second_kind: Kind,
-    pub second_clock: Clock,
-    /// index of the second access in the event log
-    pub at_event: usize,
-}
-
-#[derive(Clone, Debug)]
-pub struct DoubleConstruct {
-    pub table: u8,
-    pub depth: u8,
-    pub task: u8,
-    pub count: u32,
-    pub at_event: usize,
-}
-
-#[derive(Default)]
-pub struct Report {
-    pub events: Vec<Event>,
-    pub races: Vec<Race>,
-    pub double_constructs: Vec<DoubleConstruct>,
-    pub constructed: [[u32; N_SLOTS]; 2],
-    pub task_events: [u32; MAX_TASKS],
-}
-
-struct Sim {
-    active: bool,
-    clocks: [Clock; MAX_TASKS],
-    once_clocks: Vec<(usize, Clock)>,
-    once_keys: Vec<usize>,
-    last_write: [[Option<(u8, u32)>; N_SLOTS]; 2],
-    last_reads: [[[u32; MAX_TASKS]; N_SLOTS]; 2],
-    constructed: [[u32; N_SLOTS]; 2],
-    task_events: [u32; MAX_TASKS],
-    seam_calls: u64,
-    events: Vec<Event>,
-    races: Vec<Race>,
-    double_constructs: Vec<DoubleConstruct>,
-}
-
-impl Sim {
-    const fn new() -> Sim {
-        Sim {
-            active: false,
-            clocks: [[0; MAX_TASKS]; MAX_TASKS],
-            once_clocks: Vec::new(),
-            once_keys: Vec::new(),
-            last_write: [[None; N_SLOTS]; 2],
-            last_reads: [[[0; MAX_TASKS]; N_SLOTS]; 2],
-            constructed: [[0; N_SLOTS]; 2],
-            task_events: [0; MAX_TASKS],
-            seam_calls: 0,
-            events: Vec::new(),
-            races: Vec::new(),
-            double_constructs: Vec::new(),
-        }
-    }
-    fn reset(&mut self) {
-        self.active = false;
-        self.clocks = [[0; MAX_TASKS]; MAX_TASKS];
-        for t in 0..MAX_TASKS {
-            self.clocks[t][t] = 1;
-        }
-        self.once_clocks.clear();
-        self.once_keys.clear();
-        self.last_write = [[None; N_SLOTS]; 2];
-        self.last_reads = [[[0; MAX_TASKS]; N_SLOTS]; 2];
-        self.constructed = [[0; N_SLOTS]; 2];
-        self.task_events = [0; MAX_TASKS];
-        self.seam_calls = 0;
-        self.events.clear();
-        self.races.clear();
-        self.double_constructs.clear();
-    }
-}
-
-thread_local! {
-    static SIM: RefCell<Sim> = const { RefCell::new(Sim::new()) };
-}
-
-fn me() -> usize {
-    let id: usize = shuttle::current::me().into();
-    assert!(id < MAX_TASKS, "verif_rt: more than {} simulated tasks", MAX_TASKS);
-    id
-}
-
-/// A bare context switch: not `yield_now` (PCT treats it as a priority hint) and not an atomic
-/// (which would add a happens-before edge).
-fn scheduling_point() {
-    shuttle::thread::sleep(std::time::Duration::from_millis(0));
-}
-
-/// One seam event: count it for the task (the scheduler's stall trigger reads this counter),
-/// give the scheduler a chance to run someone else, then log it.  Returns the index of the
-/// event in the log, or `None` when the monitor is inactive.
-fn seam(table: u8, slot: u8, kind: Kind) -> Option<usize> {
-    let active = SIM.with(|s| {
-        let mut s = s.borrow_mut();
-        s.seam_calls += 1;
-        s.active
-    });
-    if !active {
-        return None;
-    }
-    let t = me();
-    SIM.with(|s| s.borrow_mut().task_events[t] += 1);
-    scheduling_point();
-    SIM.with(|s| {
-        let mut s = s.borrow_mut();
-        s.events.push(Event { task: t as u8, table, slot, kind, saw_some: false });
-        Some(s.events.len() - 1)
-    })
-}
-
-fn ordered(clock_u: &Clock, u: usize, t: u8, epoch: u32) -> bool {
-    t as usize == u || epoch <= clock_u[t as usize]
-}
-
-fn on_access(table: u8, slot: usize, kind: Kind) -> Option<usize> {
-    let idx = seam(table, slot as u8, kind)?;
-    let u = me();
-    SIM.with(|s| {
-        let mut s = s.borrow_mut();
-        let cu = s.clocks[u];
-        let (tb, sl) = (table as usize, slot);
-        // any access conflicts with the last write
-        if let Some((wt, we)) = s.last_write[tb][sl] {
-            if !ordered(&cu, u, wt, we) {
-                s.races.push(Race {
-                    table, slot: slot as u8, first_task: wt, first_kind: Kind::Write, first_epoch: we,
-                    second_task: u as u8, second_kind: kind, second_clock: cu, at_event: idx,
-                });
-            }
-        }
-        if kind == Kind::Write {
-            // a write also conflicts with every earlier read
-            for t in 0..MAX_TASKS {
-                let re = s.last_reads[tb][sl][t];
-                if re != 0 && !ordered(&cu, u, t as u8, re) {
-                    s.races.push(Race {
-                        table, slot: slot as u8, first_task: t as u8, first_kind: Kind::Read, first_epoch: re,
-                        second_task: u as u8, second_kind: kind, second_clock: cu, at_event: idx,
-                    });
-                }
-            }
-            s.last_write[tb][sl] = Some((u as u8, cu[u]));
-            s.last_reads[tb][sl] = [0; MAX_TASKS];
-        } else {
-            s.last_reads[tb][sl][u] = cu[u];
-        }
-    });
-    Some(idx)
-}
-
-// ------------------------------------------------------------------------------------------
-// Slots
-// ------------------------------------------------------------------------------------------
-
-pub struct Slots<T> {
-    arr: [Option<T>; N_SLOTS],
-    table: u8,
-}
-
-impl<T> Slots<T> {
-    pub const fn new(table: u8) -> Slots<T> {
-        Slots { arr: [const { None }; N_SLOTS], table }
-    }
-    /// Back to the pristine state (between simulated executions; monitor inactive).
-    pub fn reset(&mut self) {
-        for s in self.arr.iter_mut() {
-            *s = None;
-        }
-    }
-    /// Uninstrumented view, for the engine's own post-mortem inspection only.
-    pub fn raw(&self) -> &[Option<T>; N_SLOTS] {
-        &self.arr
-    }
-}
-
-impl<T> Index<usize> for Slots<T> {
-    type Output = Option<T>;
-    fn index(&self, i: usize) -> &Option<T> {
-        if i >= N_SLOTS {
-            // same panic as the plain array, before any seam event
-            return &self.arr[i];
-        }
-        let ev = on_access(self.table, i, Kind::Read);
-        let r = &self.arr[i];
-        if let Some(idx) = ev {
-            let some = r.is_some();
-            SIM.with(|s| s.borrow_mut().events[idx].saw_some = some);
-        }
-        r
-    }
-}
-
-impl<T> IndexMut<usize> for Slots<T> {
-    fn index_mut(&mut self, i: usize) -> &mut Option<T> {
-        if i >= N_SLOTS {
-            return &mut self.arr[i];
-        }
-        on_access(self.table, i, Kind::Write);
-        &mut self.arr[i]
-    }
-}
-
-// ------------------------------------------------------------------------------------------
-// Once
-// ------------------------------------------------------------------------------------------
-
-pub struct Once {
-    inner: shuttle::sync::Once,
-}
-
-impl Once {
-    #[allow(clippy::new_without_default)]
-    pub const fn new() -> Once {
-        Once { inner: shuttle::sync::Once::new() }
-    }
-
-    pub fn call_once<F: FnOnce()>(&self, f: F) {
-        let key = self as *const Once as usize;
-        // table 254 = "a Once"; slot = index of this Once by first appearance in the execution
-        let kidx = once_index(key);
-        seam(TABLE_ONCE, kidx, Kind::OnceEnter);
-        self.inner.call_once(|| {
-            f();
-            seam(TABLE_ONCE, kidx, Kind::OncePost);
-            release_to(key);
-        });
-        acquire_from(key);
-    }
-
-    pub fn is_completed(&self) -> bool {
-        let key = self as *const Once as usize;
-        let done = self.inner.is_completed();
-        if done {
-            acquire_from(key);
-        }
-        done
-    }
-}
-
-fn once_index(key: usize) -> u8 {
-    SIM.with(|s| {
-        let mut s = s.borrow_mut();
-        match s.once_keys.iter().position(|k| *k == key) {
-            Some(i) => i as u8,
-            None => {
-                s.once_keys.push(key);
-                (s.once_keys.len() - 1).min(253) as u8
-            }
-        }
-    })
-}
-
-fn release_to(key: usize) {
-    SIM.with(|s| {
-        let mut s = s.borrow_mut();
-        if !s.active {
-            return;
-        }
-        let t = me();
-        let c = s.clocks[t];
-        match s.once_clocks.iter_mut().find(|(k, _)| *k == key) {
-            Some((_, oc)) => *oc = c,
-            None => s.once_clocks.push((key, c)),
-        }
-        s.clocks[t][t] += 1;
-    });
-}
-
-fn acquire_from(key: usize) {
-    SIM.with(|s| {
-        let mut s = s.borrow_mut();
-        if !s.active {
-            return;
-        }
-        let t = me();
-        if let Some((_, oc)) = s.once_clocks.iter().find(|(k, _)| *k == key) {
-            let oc = *oc;
-            for i in 0..MAX_TASKS {
-                if oc[i] > s.clocks[t][i] {
-                    s.clocks[t][i] = oc[i];
-                }
-            }
-        }
-    });
-}
-
-// ------------------------------------------------------------------------------------------
-// Construction counter / stall point inside the initialiser
-// ------------------------------------------------------------------------------------------
-
-pub fn constructing(table: u8, depth: u8) {
-    let counted = SIM.with(|s| {
-        let mut s = s.borrow_mut();
-        if (table as usize) < 2 && (depth as usize) < N_SLOTS {
-            s.constructed[table as usize][depth as usize] += 1;
-            Some(s.constructed[table as usize][depth as usize])
-        } else {
-            None
-        }
-    });
-    let idx = seam(table, depth, Kind::Construct);
-    if let (Some(n), Some(idx)) = (counted, idx) {
-        if n > 1 {
-            let t = me() as u8;
-            SIM.with(|s| s.borrow_mut().double_constructs.push(DoubleConstruct { table, depth, task: t, count: n, at_event: idx }));
-        }
-    }
-}
-
-// ------------------------------------------------------------------------------------------
-// Engine-side control
-// ------------------------------------------------------------------------------------------
-
-pub mod sim {
-    use super::*;
-
-    /// Start of a simulated execution: clear the monitor.  `active == false` is the
-    /// single-task reference pass (no scheduling points, no checks, counters still count).
-    pub fn begin(active: bool) {
-        SIM.with(|s| {
-            let mut s = s.borrow_mut();
-            s.reset();
-            s.active = active;
-        });
-    }
-
-    pub fn set_active(active: bool) {
-        SIM.with(|s| s.borrow_mut().active = active);
-    }
-
-    /// Parent side of spawn / child side of exit: snapshot the caller's clock, then advance it.
-    pub fn release_snapshot() -> Clock {
-        SIM.with(|s| {
-            let mut s = s.borrow_mut();
-            let t = me();
-            let c = s.clocks[t];
-            s.clocks[t][t] += 1;
-            c
-        })
-    }
-
-    /// Child side of spawn / parent side of join.
-    pub fn acquire(c: &Clock) {
-        SIM.with(|s| {
-            let mut s = s.borrow_mut();
-            let t = me();
-            for i in 0..MAX_TASKS {
-                if c[i] > s.clocks[t][i] {
-                    s.clocks[t][i] = c[i];
-                }
-            }
-        });
-    }
-
-    /// Seam events performed so far by `task` (read by the scheduler for stall triggers).
-    pub fn task_events(task: usize) -> u32 {
-        SIM.with(|s| s.borrow().task_events[task])
-    }
-
-    /// Seam calls since `begin`, counted whether or not the monitor is active (the reference
-    /// pass uses it to derive the step bound of the raced executions).
-    pub fn seam_calls() -> u64 {
-        SIM.with(|s| s.borrow().seam_calls)
-    }
-
-    pub fn n_events() -> usize {
-        SIM.with(|s| s.borrow().events.len())
-    }
-
-    pub fn constructed() -> [[u32; N_SLOTS]; 2] {
-        SIM.with(|s| s.borrow().constructed)
-    }
-
-    /// End of the execution: take everything the monitor recorded.
-    pub fn take_report() -> Report {
-        SIM.with(|s| {
-            let mut s = s.borrow_mut();
-            s.active = false;
-            Report {
-                events: std::mem::take(&mut s.events),
-                races: std::mem::take(&mut s.races),
-                double_constructs: std::mem::take(&mut s.double_constructs),
-                constructed: s.constructed,
-                task_events: s.task_events,
-            }
-        })
-    }
-}
+#[cfg(feature = "count")]
+#[path = "count.rs"]
+mod count_impl;
+#[cfg(feature = "count")]
+pub use count_impl::*;
